@@ -91,6 +91,19 @@ Definition duality_ok (e : elem) : bool :=
   negb (Nat.eqb (length (located (e_doflocs e) (nbfun e))) 0) &&
   duality_on (nbfun e) (values e) (e_doflocs e).
 
+(* elements whose polynomials carry formal parameters beyond the e_dim coordinates (the integrated-Legendre family:
+   scales c_n = sqrt((2n-1)/2) kept as indeterminates): substitute the coordinates only *)
+Definition at_coords (d : nat) (x : list Q) : nat -> poly :=
+  fun k => if Nat.ltb k d then pconst (nth k x 0%Q) else pvar k.
+Definition duality_param_ok (e : elem) : bool :=
+  forallb is_h1 (e_basis e) && Nat.eqb (length (e_doflocs e)) (nbfun e) &&
+  negb (Nat.eqb (length (located (e_doflocs e) (nbfun e))) 0) &&
+  forallb (fun j => match nth j (e_doflocs e) None with
+                    | None => true
+                    | Some x => forallb (fun i => peqb (psubstn (at_coords (e_dim e) x) (nthp (values e) i)) (pconst (delta i j)))
+                                        (seq 0 (nbfun e))
+                    end) (seq 0 (nbfun e)).
+
 (* partition of unity: the functions attached to located DOFs sum to one identically *)
 Definition pou_sum (e : elem) : poly := psum (map (nthp (values e)) (located (e_doflocs e) (nbfun e))).
 Definition pou_ok (e : elem) : bool := forallb is_h1 (e_basis e) && peqb (pou_sum e) (pconst 1).
